@@ -104,9 +104,12 @@ def main(argv):
         else:
             ctr = [int.from_bytes(s, "big") for s in salts]
             mod = 2 ** 64
+        skips = rec.get("skips") or [0] * len(ctr)
         for i in range(1, len(ctr)):
-            if ctr[i] != (ctr[0] + i) % mod:
-                c.violation("%s: salt counter of message %d is %d, expected %d (first %d + %d)" % (alg, i, ctr[i], (ctr[0] + i) % mod, ctr[0], i),
+            # one salt per message sent, and one per request refused after its payload was encrypted
+            want_i = (ctr[0] + i + skips[i] - skips[0]) % mod
+            if ctr[i] != want_i:
+                c.violation("%s: salt counter of message %d is %d, expected %d (first %d + %d messages + %d refused requests)" % (alg, i, ctr[i], want_i, ctr[0], i, skips[i] - skips[0]),
                             {"config": cfg, "history": rec["ops"][:i + 2], "salts": rec["salts"][:i + 2]}, key="salt-sequence")
                 break
         for bad in rec["problems"]:
@@ -169,7 +172,7 @@ def api_main(g, job):
         pending_first = first
         while len(rec["salts"]) + len(rec["problems"]) < cfg.get("n", job["n"]):
             i += 1
-            op = rng.choice(["get", "get", "get_many", "getnext", "getbulk", "refresh"]) if i > 1 else "first"
+            op = rng.choice(["get", "get", "get_many", "getnext", "getbulk", "refresh", "toolarge"]) if i > 1 else "first"
             arcs = [1, 3, 6, 1, 4, 1, 99999, rng.randrange(2 ** 32), rng.randrange(2 ** 20), i % 128]
             t = ber.oid_text(arcs)
             state["reply"] = rng.random() > 0.03          # some requests time out
@@ -179,6 +182,13 @@ def api_main(g, job):
                 state["req"] = pending_first
             elif op == "refresh":
                 r = sess.op("refresh", [])
+            elif op == "toolarge":
+                # a request that does not fit the message buffer is refused (nothing goes out); the session must be none the worse.
+                # (the scoped PDU was encrypted before the message turned out too large: one salt is spent on it)
+                r = sess.op("get_many", [[t + ".%d" % k for k in range(700)]])
+                rec["refused"] = rec.get("refused", 0) + 1
+                if state["req"]:
+                    rec["problems"].append({"key": "sent-on-error", "what": "a request that does not fit the buffer was sent"})
             elif op == "get":
                 r = sess.op("get", [t])
             elif op == "get_many":
@@ -197,6 +207,7 @@ def api_main(g, job):
                     rec["problems"].append({"key": "malformed", "what": "malformed message: %s" % e, "datagram": data.hex()})
                     continue
                 rec["salts"].append(m["priv"].hex())
+                rec["skips"] = rec.get("skips", []) + [rec.get("refused", 0)]
                 rec["boots"].append(m["boots"])
                 if not m["flags"] & 2 or "encrypted" not in m:
                     rec["problems"].append({"key": "not-encrypted", "what": "message without the priv flag / ciphertext", "datagram": data.hex()})
